@@ -187,21 +187,21 @@ def check_grid(prog: Program, res: Result) -> None:
     R = "C01-grid"
     fi = prog.func(f"{UT}:make_grid_vectors")
     res.touch(fi)
-    for var, dim in (("xv", "image_width"), ("yv", "image_height")):
-        defs = [s for s in astq.assignments_to(fi.node, var) if isinstance(s, ast.Assign)]
-        ok = len(defs) == 1 and isinstance(defs[0].value, ast.Call) and norm(defs[0].value.func) == "torch.arange"
+    rets = [n for n in walk_function(fi.node) if isinstance(n, ast.Return)]
+    rv = astq.expand(fi.node, rets[0].value) if len(rets) == 1 and rets[0].value is not None else None
+    elts = rv.elts if isinstance(rv, (ast.Tuple, ast.List)) and len(rv.elts) == 2 else [None, None]
+    res.ob(R, elts[0] is not None, fi.qualname, "returns the pair (x grid, y grid)", "make_grid_vectors does not return a pair of grid vectors", fi.where)
+    for (var, dim), c in zip((("xv", "image_width"), ("yv", "image_height")), elts):
+        ok = isinstance(c, ast.Call) and norm(c.func) == "torch.arange"
         if ok:
-            c = defs[0].value
             kw = {k.arg: norm(k.value) for k in c.keywords}
             a = [norm(x) for x in c.args]
             start = a[0] if len(a) >= 2 else kw.get("start", "0")
             end = a[1] if len(a) >= 2 else (a[0] if a else kw.get("end"))
             step = a[2] if len(a) >= 3 else kw.get("step", "1")
             ok = start == "0" and end == dim and step == "output_stride"
-        res.ob(R, ok, fi.qualname, f"{var} = arange(0, {dim}, step=output_stride)", f"{var} is `{short(defs[0].value, 60) if defs else '?'}`: the sampling grid is not 0, stride, 2*stride, ... < {dim}",
-               fi.where, sample=short(defs[0].value, 70) if defs else None)
-    rets = [n for n in walk_function(fi.node) if isinstance(n, ast.Return)]
-    res.ob(R, len(rets) == 1 and norm(rets[0].value) in ("(xv, yv)", "xv, yv"), fi.qualname, "returns (xv, yv)", "make_grid_vectors does not return (xv, yv)", fi.where)
+        res.ob(R, ok, fi.qualname, f"{var} = arange(0, {dim}, step=output_stride)", f"{var} is `{short(c, 60) if c is not None else '?'}`: the sampling grid is not 0, stride, 2*stride, ... < {dim}",
+               fi.where, sample=short(c, 70) if c is not None else None)
     res.ob(R, fi.pos_params[:3] == ["image_height", "image_width", "output_stride"], fi.qualname, "signature (image_height, image_width, output_stride)", f"signature is {fi.pos_params}", fi.where)
     # callers pass a height-derived value first
     n = 0
